@@ -148,4 +148,43 @@ theorem parse_buffer (protect : Bool) (c : Creds) (out : Bytes)
 
 #print axioms reject_iff
 #print axioms parse_buffer
+/-! ### The shared command helper of one `CredentialHelperContext`
+`GetCredentialHelper(url)` stores on the context's single command helper the protection flag
+configured for *that* URL (`credential.<url>.protectProtocol`, default `dflt`); every later `Fill`
+serialises with the stored flag.  State = the stored flag. -/
+inductive CtxOp where
+  | get (configured : Option Bool)     -- GetCredentialHelper for a URL whose configuration says so
+  | fill (c : Creds)                    -- Fill / Approve / Reject with this input
+
+def ctxStep (dflt : Bool) (flag : Bool) : CtxOp → Bool × Option (Option Bytes)
+  | .get cfg => (cfg.getD dflt, none)
+  | .fill c => (flag, some (buffer flag c))
+
+def ctxRun (dflt : Bool) : Bool → List CtxOp → List (Option Bytes)
+  | _, [] => []
+  | flag, op :: ops =>
+    match ctxStep dflt flag op with
+    | (flag', some out) => out :: ctxRun dflt flag' ops
+    | (flag', none) => ctxRun dflt flag' ops
+
+theorem ctxRun_append (dflt : Bool) (ops1 ops2 : List CtxOp) (f : Bool) :
+    ∃ f', ctxRun dflt f (ops1 ++ ops2) = ctxRun dflt f ops1 ++ ctxRun dflt f' ops2 := by
+  induction ops1 generalizing f with
+  | nil => exact ⟨f, by simp [ctxRun]⟩
+  | cons op ops ih =>
+    cases op with
+    | get cfg =>
+      obtain ⟨f', h⟩ := ih (cfg.getD dflt)
+      exact ⟨f', by simp [ctxRun, ctxStep, h]⟩
+    | fill c =>
+      obtain ⟨f', h⟩ := ih f
+      exact ⟨f', by simp [ctxRun, ctxStep, h]⟩
+
+/-- whatever happened on the context before (other URLs, other settings, any initial flag), a fill
+    that follows `GetCredentialHelper(url)` is serialised under the protection configured for `url` -/
+theorem fill_after_get (dflt f0 : Bool) (hist : List CtxOp) (cfg : Option Bool) (c : Creds) :
+    (ctxRun dflt f0 (hist ++ [.get cfg, .fill c])).getLast? = some (buffer (cfg.getD dflt) c) := by
+  obtain ⟨f', h⟩ := ctxRun_append dflt hist [.get cfg, .fill c] f0
+  rw [h]; simp [ctxRun, ctxStep]
+
 end Cr
